@@ -24,6 +24,7 @@ func init() {
 		Explain:   "Decides the mechanism that makes every storage mutation one synchronous atomic Pebble batch. (R1) every engine.Batch.Commit in pkg/db passes the constant true (enumerated exceptions: the rebuildable latest-index GC and the explicitly non-durable dispatch-cursor hint, whose *Durable callers are checked to pass true), engine.Batch.Commit maps sync=true to pebble.Sync, every direct Pebble commit/write passes pebble.Sync, and the commit coordinator's commit function is only ever the Commit(true) closure. (R2) each mutation function creates exactly one batch, every staged write / helper call / Commit in it uses that same batch object (SSA identity), Commit runs at most once per batch lifetime, helpers that receive a batch never create or commit one, a batch owner never reaches (through static calls) another function that creates or commits a batch on the same path, nothing in pkg/db writes to Pebble outside a batch; multi-batch pagers (restore import/cleanup, snapshot install) are enumerated exceptions with reasons; the append/apply/truncate/trim/replace/checkpoint paths stage rows, every secondary index, the checkpoint, the retention progress record and the catalog row before their Commit. (R3) the cached log end (leo/loaded) is stored only behind Commit == nil or in enumerated load-from-disk sites; after staging, a mutation function returns success only through a successful commit; the coordinator runs Publish and reports OutcomeCommitted only behind commitFunc == nil, reports Unknown (never NotCommitted) after a commit error and completes all requests on every error exit. (R4) no error result of the engine, the coordinator or a staging helper is dropped. (R5) LoadDurableRecovery / loadDurableFrontierLocked succeed only if checkpoint.HW <= LEO and, when LEO > 0, the tail proposal pair and tail entry identity are present and agree field by field. NOT decided: that Pebble applies a batch atomically and that Sync means durable (trusted), behaviour after an actual crash or power loss, convergence of the enumerated multi-batch pagers after a crash between pages, that the coordinator's success loop completes every request (loop over the batch slice), calls through interfaces/function values in the nesting rule, that the staged rows are the right rows.",
 		Run:       c09,
 		Mutants: []Mutant{
+			{Name: "pair-compares-command-id-only", File: "pkg/db/message/proposal_manifest.go", Old: "if !commandPresent || byCommand != byLast {", New: "if !commandPresent || byCommand.manifest.CommandID != byLast.manifest.CommandID {", Expect: "C09/R5-frontier/*loadDurableProposalPairByLast*"},
 			{Name: "append-nosync", File: "pkg/db/message/append.go", Old: "if err := batch.Commit(true); err != nil {", New: "if err := batch.Commit(false); err != nil {", Expect: "C09/R1-sync/*ChannelLog.Append*"},
 			{Name: "engine-sync-inverted", File: "pkg/db/internal/engine/batch.go", Old: "\tif sync {\n\t\topts = pebble.Sync", New: "\tif !sync {\n\t\topts = pebble.Sync", Expect: "C09/R1-sync/*engine.Batch.Commit*"},
 			{Name: "coordinator-nosync", File: "pkg/db/internal/commit/coordinator.go", Old: "return batch.Commit(true) }", New: "return batch.Commit(false) }", Expect: "C09/R1-sync/*"},
@@ -679,8 +680,50 @@ func c09(c *Ctx) {
 		"*loadDurableProposalFrom(*encodeProposalByLastKey(*))#1 == true",
 		"*loadDurableProposalFrom(*encodeProposalByLastKey(*))#2 == nil",
 		"*loadDurableProposalFrom(*encodeProposalByCommandKey(*))#1 == true",
-		"*loadDurableProposalFrom(*encodeProposalByCommandKey(*))#2 == nil",
-		"*loadDurableProposalFrom(*encodeProposalByCommandKey(*))#0 == byLast")
+		"*loadDurableProposalFrom(*encodeProposalByCommandKey(*))#2 == nil")
+	// ‹found› = the record handed back on success, resolved from the return operand (not from the name of
+	// the local that holds it): it is the by-last-offset lookup result, and the by-command row was compared
+	// equal to exactly that record.
+	if pair != nil {
+		found, mixed := "", false
+		var rets []ssa.Instruction
+		for _, in := range instrsMatching(pair, Ret{1, "true"}) {
+			rets = append(rets, in)
+			p := Path(retOperand(in.(*ssa.Return), 0))
+			if found != "" && found != p {
+				mixed = true
+			}
+			found = p
+		}
+		const byLastRow = "*loadDurableProposalFrom(*encodeProposalByLastKey(*))#0"
+		construct := c.P.Name(pair) + "#found-record"
+		switch {
+		case len(rets) == 0: // reported as vacuous by the Guard above
+		case mixed:
+			c.add("shape", "R5-frontier", construct, Violated, c.P.InstrPos(rets[0]), "success returns hand back different records")
+		default:
+			var bad []string
+			n := 0
+			if !glob(byLastRow, found) {
+				for _, in := range instrsMatching(pair, StoreTo{Addr: found}) {
+					n++
+					if st, ok := in.(*ssa.Store); !ok || !glob(byLastRow, Path(st.Val)) {
+						bad = append(bad, c.P.InstrPos(in))
+					}
+				}
+				if n == 0 {
+					bad = append(bad, "never assigned")
+				}
+			}
+			if len(bad) > 0 {
+				c.add("shape", "R5-frontier", construct, Violated, c.P.InstrPos(rets[0]), fmt.Sprintf("the record returned on success (%s) is not exactly the by-last-offset lookup result %s: %s", found, byLastRow, strings.Join(bad, ", ")))
+			} else {
+				c.add("shape", "R5-frontier", construct, Held, c.P.InstrPos(rets[0]), fmt.Sprintf("%d success return(s) hand back %s = the by-last-offset lookup result", len(rets), found))
+			}
+			c09GuardRef(c, "R5-frontier", pair, Ret{1, "true"}, map[string]string{"found": found},
+				"*loadDurableProposalFrom(*encodeProposalByCommandKey(*))#0 == ‹found›")
+		}
+	}
 	// recovered log end = last stored row (or the retained maximum): recoverLEO result only grows from what it read
 	c.Guard("R5-frontier", c.Fn(msg+"ChannelLog.loadLEOLocked"), CallTo{"sync/atomic.Uint64.Store(*.leo, *"}, "*.recoverLEO(*)#1 == nil")
 	c.CallShape("R5-frontier", c.Fn(msg+"ChannelLog.loadLEOLocked"), "sync/atomic.Uint64.Store", "*(*.leo, *.recoverLEO(*)#0)")
@@ -690,6 +733,53 @@ func c09(c *Ctx) {
 	c.Min("R3-publish", 55)
 	c.Min("R3-coordinator", 6)
 	c.Min("R5-frontier", 34)
+}
+
+// c09GuardRef is c.Guard for guards that mention values the caller resolved structurally (return
+// operands, call arguments, stored values: SSA identity). A guard names such a value ‹name›; for matching
+// the placeholder is replaced by refs[name] (the value's rendering in fn) while the obligation key keeps
+// the placeholder, so the rule does not depend on the identifier of a local variable. (Also used by C14.)
+func c09GuardRef(c *Ctx, rule string, fn *ssa.Function, eff Effect, refs map[string]string, guards ...string) {
+	if fn == nil {
+		return
+	}
+	name := c.P.Name(fn)
+	c.FuncsAnalysed[name] = true
+	effs := instrsMatching(fn, eff)
+	if len(effs) == 0 {
+		c.add("guard", rule, name+"#"+eff.String(), Undecided, c.P.Pos(fn.Pos()), "no instruction matches the effect (rule would be vacuous; the code moved or the effect shape changed)")
+		return
+	}
+	for _, gs := range guards {
+		construct := name + "#" + eff.String() + "⇐" + gs
+		real := gs
+		for k, v := range refs {
+			real = strings.ReplaceAll(real, "‹"+k+"›", v)
+		}
+		if strings.Contains(real, "‹") {
+			c.add("guard", rule, construct, Undecided, c.P.InstrPos(effs[0]), "guard uses a back-reference that was not resolved")
+			continue
+		}
+		g := parseGuard(real)
+		removed, descr := guardEdges(fn, g)
+		c.EdgesRemoved += len(removed)
+		limit := reachUnguarded(fn, removed, g.afters)
+		var bad []string
+		for _, e := range effs {
+			if lim, ok := limit[e.Block()]; ok && indexIn(e.Block(), e) < lim {
+				bad = append(bad, c.P.InstrPos(e))
+			}
+		}
+		if len(bad) > 0 {
+			why := "an entry→effect path avoids every matching guard edge"
+			if len(removed) == 0 && len(g.afters) == 0 {
+				why = "no branch in the function establishes the required fact"
+			}
+			c.add("guard", rule, construct, Violated, bad[0], fmt.Sprintf("effect %q in %s reachable without guard %q at %s: %s", eff.String(), name, real, strings.Join(bad, ", "), why))
+			continue
+		}
+		c.add("guard", rule, construct, Held, c.P.InstrPos(effs[0]), fmt.Sprintf("%d effect site(s); %d guard edge(s) removed [%s]; no unguarded path from entry (back-references %v)", len(effs), len(removed), strings.Join(dedup(descr), "; "), refs))
+	}
 }
 
 // c09PublishAfterCommit decides R3 for the cached log end: every Store to
